@@ -256,7 +256,11 @@ func lexCommentLine(l *lexer) stateFn {
 	l.pos += Pos(len(leftComment))
 	i := strings.Index(l.input[l.pos:], "\n")
 	if i < 0 {
-		return l.errorf("unclosed comment")
+		// A line comment on the last line of a text that does not end
+		// in a line break runs to the end of the text.
+		l.pos = Pos(len(l.input))
+		l.ignore()
+		return lexStmt
 	}
 	l.pos += Pos(i + 1)
 	l.ignore()
